@@ -62,6 +62,9 @@ type Config struct {
 	GNonce   int      `json:"gNonce"`
 	GTag     int      `json:"gTag"`
 	Hash     int      `json:"hash"`
+	Keep     int      `json:"keep"`  // "results stay the caller's" configurations: results of Keep earlier calls are retained (0: not one)
+	Chain    string   `json:"chain"` // argument of the last call that IS the previous call's result ("none")
+	Conc     int      `json:"conc"`  // goroutines doing this at once
 }
 
 type obs struct {
@@ -228,98 +231,103 @@ func badPadCT(p cref.CBCHMAC, key, nonce []byte) []byte {
 
 // perform lays the arguments of one configuration out in an arena, makes the
 // real call and reports what changed.
-func perform(cf Config, seed int64) (o obs) {
-	var a *arena
-	defer func() {
-		if p := recover(); p != nil {
-			if a == nil {
-				o = obs{Outcome: "harness-panic", Written: [][]string{}, Detail: fmt.Sprint(p)}
-				return
-			}
-			o.Outcome, o.Detail = "panic", fmt.Sprint(p)
-			o.Written, o.Outside = a.diff()
+// prepared is one real call ready to be made: the named []byte arguments and a
+// closure that makes the call with whatever slices arg hands it.
+type prepared struct {
+	data   map[string][]byte
+	invoke func(arg func(string) []byte) (outs [][]byte, err error)
+}
+
+// prepare builds the arguments of one call of cf.Fn steered into path.  When
+// chain names an argument, chainVal (a slice returned by an earlier call) IS
+// that argument, and the other inputs are made consistent with its content.
+func prepare(cf Config, msg []byte, path, chain string, chainVal []byte) (pr prepared) {
+	sub := func(name string, def []byte) []byte {
+		if chain == name {
+			return chainVal
 		}
-	}()
-	msg := cref.Det(byte(1+16*int(seed%8)), cf.Len)
-	aad := cref.Det(3, 20)
-	data := map[string][]byte{}
-	mk := func() *arena {
-		d := make([][]byte, len(cf.Args))
-		for j, n := range cf.Args {
-			d[j] = data[n]
-		}
-		a = newArena(cf.Args, d, cf.Spares)
-		return a
+		return def
 	}
+	data := map[string][]byte{}
+	pr.data = data
+	aad := cref.Det(3, 20)
 	alg := cf.Alg
-	if cf.Path == "fail_alg" {
+	if path == "fail_alg" {
 		alg = "A128GCMKW"
 		if isSig(cf.Fam) {
 			alg = "HS256"
 		}
 	}
-	var err error
 	switch cf.Fn {
 	case "Encrypt", "EncryptSymmetric":
 		if isAsym(cf.Fam) {
 			kind, bits := "rsa-pub", 2048
-			if cf.Path == "fail_key" {
+			if path == "fail_key" || path == "fail" {
 				kind, bits = "ec", 256
 			}
 			key, _ := cref.JWK(kind, bits, 0)
-			data["plaintext"], data["key"], data["nonce"], data["associatedData"] = msg, nil, nil, aad
-			mk()
-			_, _, err = kit.Encrypt(a.arg("plaintext"), alg, key, a.arg("nonce"), a.arg("associatedData"))
-			break
+			data["plaintext"], data["key"], data["nonce"], data["associatedData"] = sub("plaintext", msg), nil, nil, sub("associatedData", aad)
+			pr.invoke = func(arg func(string) []byte) ([][]byte, error) {
+				ct, tag, err := kit.Encrypt(arg("plaintext"), alg, key, arg("nonce"), arg("associatedData"))
+				return [][]byte{ct, tag}, err
+			}
+			return
 		}
 		kb, nonce := cref.Oct(cf.GKeyBits/8), cref.Det(2, cf.GNonce)
-		switch cf.Path {
-		case "fail_key":
+		switch path {
+		case "fail_key", "fail":
 			kb = cref.Oct(8)
 		case "fail_nonce":
 			nonce = cref.Det(2, cf.GNonce+1)
 		}
-		data["plaintext"], data["key"], data["nonce"], data["associatedData"] = msg, kb, nonce, aad
-		mk()
-		key, kerr := jwk.FromRaw(a.arg("key"))
-		if kerr != nil {
-			panic(kerr)
-		}
-		if cf.Fn == "Encrypt" {
-			_, _, err = kit.Encrypt(a.arg("plaintext"), alg, key, a.arg("nonce"), a.arg("associatedData"))
-		} else {
-			_, _, err = kit.EncryptSymmetric(a.arg("plaintext"), alg, key, a.arg("nonce"), a.arg("associatedData"))
+		data["plaintext"], data["key"], data["nonce"], data["associatedData"] = sub("plaintext", msg), kb, nonce, sub("associatedData", aad)
+		pr.invoke = func(arg func(string) []byte) ([][]byte, error) {
+			key, kerr := jwk.FromRaw(arg("key"))
+			if kerr != nil {
+				panic(kerr)
+			}
+			var ct, tag []byte
+			var err error
+			if cf.Fn == "Encrypt" {
+				ct, tag, err = kit.Encrypt(arg("plaintext"), alg, key, arg("nonce"), arg("associatedData"))
+			} else {
+				ct, tag, err = kit.EncryptSymmetric(arg("plaintext"), alg, key, arg("nonce"), arg("associatedData"))
+			}
+			return [][]byte{ct, tag}, err
 		}
 	case "Decrypt", "DecryptSymmetric":
 		if isAsym(cf.Fam) {
-			ct := rsaCT(cf, msg, aad)
+			label := sub("associatedData", aad)
+			ct := rsaCT(cf, msg, label)
 			kind := "rsa"
-			switch cf.Path {
+			switch path {
 			case "fail_key":
 				kind = "rsa-pub"
-			case "fail_auth":
+			case "fail_auth", "fail":
 				ct[5] ^= 0x40
 			}
 			key, _ := cref.JWK(kind, 2048, 0)
-			data["ciphertext"], data["key"], data["nonce"], data["tag"], data["associatedData"] = ct, nil, nil, nil, aad
-			mk()
-			_, err = kit.Decrypt(a.arg("ciphertext"), alg, key, a.arg("nonce"), a.arg("tag"), a.arg("associatedData"))
-			break
+			data["ciphertext"], data["key"], data["nonce"], data["tag"], data["associatedData"] = ct, nil, nil, nil, label
+			pr.invoke = func(arg func(string) []byte) ([][]byte, error) {
+				pt, err := kit.Decrypt(arg("ciphertext"), alg, key, arg("nonce"), arg("tag"), arg("associatedData"))
+				return [][]byte{pt}, err
+			}
+			return
 		}
-		gk, nonce := cref.Oct(cf.GKeyBits/8), cref.Det(2, cf.GNonce)
-		ct, tag, rerr := refSym(cf, gk, nonce, msg, aad)
+		gk, nonce, ad := sub("key", cref.Oct(cf.GKeyBits/8)), sub("nonce", cref.Det(2, cf.GNonce)), sub("associatedData", aad)
+		ct, tag, rerr := refSym(cf, gk, nonce, msg, ad)
 		if rerr != nil {
 			panic(fmt.Sprintf("reference encryption %+v: %v", cf, rerr))
 		}
 		kb := gk
-		switch cf.Path {
+		switch path {
 		case "fail_key":
 			kb = cref.Oct(8)
 		case "fail_nonce":
 			nonce = cref.Det(2, cf.GNonce+1)
 		case "fail_tag":
 			tag = tag[:len(tag)-1]
-		case "fail_auth":
+		case "fail_auth", "fail":
 			if len(ct) > 0 {
 				ct[0] ^= 1
 			} else {
@@ -332,136 +340,160 @@ func perform(cf Config, seed int64) (o obs) {
 			blk[15] = 0
 			ct, _ = cref.CBCEncryptRaw(gk, nonce, blk)
 		}
-		data["ciphertext"], data["key"], data["nonce"], data["tag"], data["associatedData"] = ct, kb, nonce, tag, aad
-		mk()
-		key, kerr := jwk.FromRaw(a.arg("key"))
-		if kerr != nil {
-			panic(kerr)
-		}
-		if cf.Fn == "Decrypt" {
-			_, err = kit.Decrypt(a.arg("ciphertext"), alg, key, a.arg("nonce"), a.arg("tag"), a.arg("associatedData"))
-		} else {
-			_, err = kit.DecryptSymmetric(a.arg("ciphertext"), alg, key, a.arg("nonce"), a.arg("tag"), a.arg("associatedData"))
+		data["ciphertext"], data["key"], data["nonce"], data["tag"], data["associatedData"] = sub("ciphertext", ct), kb, nonce, sub("tag", tag), ad
+		pr.invoke = func(arg func(string) []byte) ([][]byte, error) {
+			key, kerr := jwk.FromRaw(arg("key"))
+			if kerr != nil {
+				panic(kerr)
+			}
+			var pt []byte
+			var err error
+			if cf.Fn == "Decrypt" {
+				pt, err = kit.Decrypt(arg("ciphertext"), alg, key, arg("nonce"), arg("tag"), arg("associatedData"))
+			} else {
+				pt, err = kit.DecryptSymmetric(arg("ciphertext"), alg, key, arg("nonce"), arg("tag"), arg("associatedData"))
+			}
+			return [][]byte{pt}, err
 		}
 	case "EncryptPublicKey":
 		kind, bits := "rsa-pub", 2048
-		if cf.Path == "fail_key" {
+		if path == "fail_key" || path == "fail" {
 			kind, bits = "ec", 256
 		}
 		key, _ := cref.JWK(kind, bits, 0)
-		data["plaintext"], data["associatedData"] = msg, aad
-		mk()
-		_, err = kit.EncryptPublicKey(a.arg("plaintext"), alg, key, a.arg("associatedData"))
+		data["plaintext"], data["associatedData"] = sub("plaintext", msg), sub("associatedData", aad)
+		pr.invoke = func(arg func(string) []byte) ([][]byte, error) {
+			ct, err := kit.EncryptPublicKey(arg("plaintext"), alg, key, arg("associatedData"))
+			return [][]byte{ct}, err
+		}
 	case "DecryptPrivateKey":
-		ct := rsaCT(cf, msg, aad)
+		label := sub("associatedData", aad)
+		ct := rsaCT(cf, msg, label)
 		kind := "rsa"
-		switch cf.Path {
+		switch path {
 		case "fail_key":
 			kind = "rsa-pub"
-		case "fail_auth":
+		case "fail_auth", "fail":
 			ct[5] ^= 0x40
 		}
 		key, _ := cref.JWK(kind, 2048, 0)
-		data["ciphertext"], data["associatedData"] = ct, aad
-		mk()
-		_, err = kit.DecryptPrivateKey(a.arg("ciphertext"), alg, key, a.arg("associatedData"))
+		data["ciphertext"], data["associatedData"] = ct, label
+		pr.invoke = func(arg func(string) []byte) ([][]byte, error) {
+			pt, err := kit.DecryptPrivateKey(arg("ciphertext"), alg, key, arg("associatedData"))
+			return [][]byte{pt}, err
+		}
 	case "SignPrivateKey", "VerifyPublicKey":
 		kind, bits := sigKey(cf)
 		sig := refSig(cf, kind, bits, msg)
 		callKind, callBits := kind, bits
-		switch cf.Path {
-		case "fail_key":
+		switch path {
+		case "fail_key", "fail":
 			callKind, callBits = "oct", 256
 		case "fail_auth":
 			sig[len(sig)/2] ^= 0x10
 		}
 		key, _ := cref.JWK(callKind, callBits, 0)
 		data["digest"], data["signature"] = msg, sig
-		mk()
-		if cf.Fn == "SignPrivateKey" {
-			_, err = kit.SignPrivateKey(a.arg("digest"), alg, key)
-		} else {
-			var valid bool
-			valid, err = kit.VerifyPublicKey(a.arg("digest"), a.arg("signature"), alg, key)
+		pr.invoke = func(arg func(string) []byte) ([][]byte, error) {
+			if cf.Fn == "SignPrivateKey" {
+				s, err := kit.SignPrivateKey(arg("digest"), alg, key)
+				return [][]byte{s}, err
+			}
+			valid, err := kit.VerifyPublicKey(arg("digest"), arg("signature"), alg, key)
 			if err == nil && !valid {
 				err = errors.New("signature invalid")
 			}
+			return nil, err
 		}
 	case "aeskw.Wrap":
 		blk, _ := aes.NewCipher(cref.Oct(cf.GKeyBits / 8))
-		data["cek"] = msg
-		mk()
-		_, err = aeskw.Wrap(blk, a.arg("cek"))
+		data["cek"] = sub("cek", msg)
+		pr.invoke = func(arg func(string) []byte) ([][]byte, error) {
+			out, err := aeskw.Wrap(blk, arg("cek"))
+			return [][]byte{out}, err
+		}
 	case "aeskw.Unwrap":
 		kek := cref.Oct(cf.GKeyBits / 8)
 		blk, _ := aes.NewCipher(kek)
 		ct, _ := cref.KWWrap(kek, msg)
-		if cf.Path == "fail_auth" {
+		if path == "fail_auth" || path == "fail" {
 			ct[3] ^= 2
 		}
-		data["cipherText"] = ct
-		mk()
-		_, err = aeskw.Unwrap(blk, a.arg("cipherText"))
+		data["cipherText"] = sub("cipherText", ct)
+		pr.invoke = func(arg func(string) []byte) ([][]byte, error) {
+			out, err := aeskw.Unwrap(blk, arg("cipherText"))
+			return [][]byte{out}, err
+		}
 	case "padding.PadPKCS7":
 		size := 16
-		if cf.Path == "fail_size" {
+		if path == "fail_size" || path == "fail" {
 			size = 256
 		}
-		data["buf"] = msg
-		mk()
-		_, err = padding.PadPKCS7(a.arg("buf"), size)
+		data["buf"] = sub("buf", msg)
+		pr.invoke = func(arg func(string) []byte) ([][]byte, error) {
+			out, err := padding.PadPKCS7(arg("buf"), size)
+			return [][]byte{out}, err
+		}
 	case "padding.UnpadPKCS7":
 		buf, size := cref.Pad(msg, 16), 16
-		switch cf.Path {
+		switch path {
 		case "fail_size":
 			size = 1
-		case "fail_pad":
+		case "fail_pad", "fail":
 			buf[len(buf)-1] = 0
 		}
-		data["buf"] = buf
-		mk()
-		_, err = padding.UnpadPKCS7(a.arg("buf"), size)
+		data["buf"] = sub("buf", buf)
+		pr.invoke = func(arg func(string) []byte) ([][]byte, error) {
+			out, err := padding.UnpadPKCS7(arg("buf"), size)
+			return [][]byte{out}, err
+		}
 	case "aescbcaead.New":
 		kb := cref.Oct(cf.GKeyBits / 8)
-		if cf.Path == "fail_key" {
+		if path == "fail_key" {
 			kb = cref.Oct(8)
 		}
 		data["key"] = kb
-		mk()
-		_, err = aeadCtor(cf.Alg)(a.arg("key"))
+		pr.invoke = func(arg func(string) []byte) ([][]byte, error) {
+			_, err := aeadCtor(cf.Alg)(arg("key"))
+			return nil, err
+		}
 	case "aescbcaead.Seal", "aescbcaead.Open":
 		p, _ := cref.CBCHMACByName(cf.Alg)
-		kb, nonce := cref.Oct(cf.GKeyBits/8), cref.Det(2, 16)
+		kb, nonce, ad := cref.Oct(cf.GKeyBits/8), sub("nonce", cref.Det(2, 16)), sub("additionalData", aad)
 		dst := cref.Det(8, 3*(cf.SV%2)) // an empty or a 3-byte destination prefix
-		data["dst"], data["nonce"], data["additionalData"], data["key"] = dst, nonce, aad, kb
+		data["dst"], data["nonce"], data["additionalData"], data["key"] = dst, nonce, ad, kb
 		if cf.Fn == "aescbcaead.Seal" {
-			data["plaintext"] = msg
-			mk()
-			aead, cerr := aeadCtor(cf.Alg)(a.arg("key"))
-			if cerr != nil {
-				panic(cerr)
+			data["plaintext"] = sub("plaintext", msg)
+			pr.invoke = func(arg func(string) []byte) ([][]byte, error) {
+				aead, cerr := aeadCtor(cf.Alg)(arg("key"))
+				if cerr != nil {
+					panic(cerr)
+				}
+				out := aead.Seal(arg("dst"), arg("nonce"), arg("plaintext"), arg("additionalData"))
+				if !bytes.HasPrefix(out, dst) {
+					return [][]byte{out}, errors.New("destination prefix lost")
+				}
+				return [][]byte{out}, nil
 			}
-			out := aead.Seal(a.arg("dst"), a.arg("nonce"), a.arg("plaintext"), a.arg("additionalData"))
-			if !bytes.HasPrefix(out, dst) {
-				err = errors.New("destination prefix lost")
-			}
-			break
+			return
 		}
-		ct, tag, _ := p.Seal(kb, nonce, msg, aad)
-		switch cf.Path {
-		case "fail_auth":
+		ct, tag, _ := p.Seal(kb, nonce, msg, ad)
+		switch path {
+		case "fail_auth", "fail":
 			tag[0] ^= 1
 		case "fail_pad":
 			ct = badPadCT(p, kb, nonce)
-			tag = p.Tag(kb, nonce, ct, aad)
+			tag = p.Tag(kb, nonce, ct, ad)
 		}
 		data["ciphertext"] = append(cp(ct), tag...)
-		mk()
-		aead, cerr := aeadCtor(cf.Alg)(a.arg("key"))
-		if cerr != nil {
-			panic(cerr)
+		pr.invoke = func(arg func(string) []byte) ([][]byte, error) {
+			aead, cerr := aeadCtor(cf.Alg)(arg("key"))
+			if cerr != nil {
+				panic(cerr)
+			}
+			out, err := aead.Open(arg("dst"), arg("nonce"), arg("ciphertext"), arg("additionalData"))
+			return [][]byte{out}, err
 		}
-		_, err = aead.Open(a.arg("dst"), a.arg("nonce"), a.arg("ciphertext"), a.arg("additionalData"))
 	case "ParseKey":
 		raw := cref.Det(11, cf.Len)
 		switch cf.Alg {
@@ -476,17 +508,184 @@ func perform(cf Config, seed int64) (o obs) {
 			raw = []byte(`{"kty":"oct","k":` + strings.Repeat("1", cf.Len%7))
 		}
 		data["raw"] = raw
-		mk()
-		_, err = kit.ParseKey(a.arg("raw"), "")
+		pr.invoke = func(arg func(string) []byte) ([][]byte, error) {
+			_, err := kit.ParseKey(arg("raw"), "")
+			return nil, err
+		}
 	default:
 		panic("unknown function " + cf.Fn)
 	}
+	return pr
+}
+
+// perform lays the arguments of one configuration out in an arena, makes the
+// real call and reports what changed.
+func perform(cf Config, seed int64) (o obs) {
+	if cf.Keep > 0 {
+		return performRet(cf, seed)
+	}
+	var a *arena
+	defer func() {
+		if p := recover(); p != nil {
+			if a == nil {
+				o = obs{Outcome: "harness-panic", Written: [][]string{}, Detail: fmt.Sprint(p)}
+				return
+			}
+			o.Outcome, o.Detail = "panic", fmt.Sprint(p)
+			o.Written, o.Outside = a.diff()
+		}
+	}()
+	msg := cref.Det(byte(1+16*int(seed%8)), cf.Len)
+	pr := prepare(cf, msg, cf.Path, "", nil)
+	d := make([][]byte, len(cf.Args))
+	for j, n := range cf.Args {
+		d[j] = pr.data[n]
+	}
+	a = newArena(cf.Args, d, cf.Spares)
+	_, err := pr.invoke(a.arg)
 	o.Outcome = classify(err)
 	if err != nil {
 		o.Detail = err.Error()
 	}
 	o.Written, o.Outside = a.diff()
 	return o
+}
+
+// exact returns a private copy with cap == len.
+func exact(b []byte) []byte {
+	o := make([]byte, len(b))
+	copy(o, b)
+	return o
+}
+
+// performRet: "results stay the caller's".  cf.Conc goroutines each make
+// cf.Keep successful calls, keep every returned slice (and a snapshot), then
+// make one more call on cf.Path — when cf.Chain names an argument, the primary
+// result of the previous call IS that argument.  After every call all retained
+// results (and the chained argument) are compared with their snapshots.
+func performRet(cf Config, seed int64) (o obs) {
+	type wout struct {
+		written map[string]bool
+		outcome string
+		detail  string
+		fault   string
+	}
+	outs := make([]wout, cf.Conc)
+	var wg sync.WaitGroup
+	start := make(chan struct{})
+	for w := 0; w < cf.Conc; w++ {
+		wg.Add(1)
+		go func() {
+			defer wg.Done()
+			wo := &outs[w]
+			wo.written = map[string]bool{}
+			defer func() {
+				if p := recover(); p != nil {
+					wo.fault = fmt.Sprint(p)
+				}
+			}()
+			type held struct{ live, snap []byte }
+			var ring []held
+			check := func() {
+				for _, h := range ring {
+					if !bytes.Equal(h.live, h.snap) {
+						wo.written["result.len"] = true
+					}
+					if !bytes.Equal(h.live[:cap(h.live)][len(h.live):], h.snap[:cap(h.snap)][len(h.snap):]) {
+						wo.written["result.spare"] = true
+					}
+				}
+			}
+			hold := func(rs [][]byte) {
+				for _, r := range rs {
+					if r == nil {
+						continue
+					}
+					full := r[:cap(r)]
+					s := make([]byte, len(full))
+					copy(s, full)
+					ring = append(ring, held{r, s[:len(r)]})
+				}
+			}
+			<-start
+			var primary []byte
+			for i := 0; i <= cf.Keep; i++ {
+				msg := cref.Det(byte(1+16*int(seed%8)+7*w+31*i), cf.Len)
+				path, chain, chainVal := "ok", "", []byte(nil)
+				if i == cf.Keep {
+					path = cf.Path
+					if cf.Chain != "none" && primary != nil {
+						path, chain, chainVal = "ok", cf.Chain, primary
+					}
+				}
+				pr := prepare(cf, msg, path, chain, chainVal)
+				args := map[string][]byte{}
+				for n, d := range pr.data {
+					if n == chain {
+						args[n] = chainVal // the earlier result itself
+					} else {
+						args[n] = exact(d)
+					}
+				}
+				snaps := map[string][]byte{}
+				for n, d := range args {
+					snaps[n] = exact(d)
+				}
+				var rs [][]byte
+				var err error
+				if p, pm := guardCall(func() { rs, err = pr.invoke(func(n string) []byte { return args[n] }) }); p {
+					wo.outcome, wo.detail = "panic", pm
+				} else {
+					wo.outcome = classify(err)
+					if err != nil {
+						wo.detail = err.Error()
+					}
+				}
+				for n, d := range args {
+					if !bytes.Equal(d, snaps[n]) {
+						wo.written[n+".len"] = true
+					}
+				}
+				check()
+				if err == nil {
+					hold(rs)
+					if len(rs) > 0 {
+						primary = rs[0]
+					}
+				}
+			}
+			check()
+		}()
+	}
+	close(start)
+	wg.Wait()
+	o.Written = [][]string{}
+	seen := map[string]bool{}
+	for _, wo := range outs {
+		if wo.fault != "" {
+			return obs{Outcome: "harness-panic", Written: [][]string{}, Detail: wo.fault}
+		}
+		o.Outcome, o.Detail = wo.outcome, wo.detail
+		for k := range wo.written {
+			if !seen[k] {
+				seen[k] = true
+				a, r, _ := strings.Cut(k, ".")
+				o.Written = append(o.Written, []string{a, r})
+			}
+		}
+	}
+	sort.Slice(o.Written, func(i, j int) bool { return o.Written[i][0]+o.Written[i][1] < o.Written[j][0]+o.Written[j][1] })
+	return o
+}
+
+func guardCall(f func()) (panicked bool, msg string) {
+	defer func() {
+		if r := recover(); r != nil {
+			panicked, msg = true, fmt.Sprint(r)
+		}
+	}()
+	f()
+	return false, ""
 }
 
 func rsaCT(cf Config, msg, label []byte) []byte {
@@ -572,6 +771,9 @@ func findingKey(cf Config, why string) string {
 		return "write:" + h + ":outside"
 	}
 	arg, reg, _ := strings.Cut(why, ".")
+	if arg == "result" {
+		return "write:" + h + ":earlier-result"
+	}
 	if h == "aescbcaead.Seal" && arg == "plaintext" {
 		arg = "plaintext" // the same argument under both entry points
 	}
@@ -582,8 +784,12 @@ func findingKey(cf Config, why string) string {
 }
 
 func line(cf Config, o obs) tv.M {
-	return tv.M{"fn": cf.Fn, "alg": cf.Alg, "len": cf.Len, "path": cf.Path, "sv": cf.SV, "args": cf.Args, "spares": cf.Spares,
+	m := tv.M{"fn": cf.Fn, "alg": cf.Alg, "len": cf.Len, "path": cf.Path, "sv": cf.SV, "args": cf.Args, "spares": cf.Spares,
 		"outcome": o.Outcome, "written": o.Written, "outside": o.Outside}
+	if cf.Keep > 0 {
+		m["keep"], m["chain"], m["conc"] = cf.Keep, cf.Chain, cf.Conc
+	}
+	return m
 }
 
 func loadConfigs(b []byte) ([]Config, error) {
@@ -624,8 +830,8 @@ func TestCheck(t *testing.T) {
 	}
 
 	mcCfg := ev.Pick("MCmem_small.cfg", "MCmem_big.cfg")
-	defCh := make(chan [2]string, 2)
-	for _, d := range []string{"pad", "append"} {
+	defCh := make(chan [2]string, 3)
+	for _, d := range []string{"pad", "append", "pool"} {
 		go func() {
 			r := tlc.Run(tlc.Opts{Dir: "CryptoDispatch", Module: "MemModel", Config: "MCmem_defect_" + d + ".cfg", Workers: 2,
 				Timeout: 5 * time.Minute, Args: []string{"-noGenerateSpecTE"}})
@@ -696,8 +902,8 @@ func TestCheck(t *testing.T) {
 				nz++
 			}
 		}
-		if nz > 0 { // non-trivial: some argument has spare capacity behind it
-			e.Nontrivial(fmt.Sprintf("%s|%s|%d|%s|%d", cf.Fn, cf.Alg, cf.Len, cf.Path, cf.SV))
+		if nz > 0 || cf.Keep > 0 { // non-trivial: some argument has spare capacity behind it, or results are retained
+			e.Nontrivial(fmt.Sprintf("%s|%s|%d|%s|%d|%d|%s|%d", cf.Fn, cf.Alg, cf.Len, cf.Path, cf.SV, cf.Keep, cf.Chain, cf.Conc))
 		}
 	}
 	fmt.Printf("performed %d configurations in %s\n", len(cfs), time.Since(t0).Round(time.Millisecond))
@@ -705,7 +911,7 @@ func TestCheck(t *testing.T) {
 	e.Set("functions_covered", int64(len(fnsSeen)))
 	e.Set("outcome_classes_observed", outcomes)
 	e.Set("paths_not_reached", notReached) // the steered path did not happen (C03 findings show up here); the law holds on any path
-	e.Set("rule", "configuration = (exported function taking []byte, algorithm / input kind, message length around block boundaries, path: ok or the failure steered into, spare-capacity vector), enumerated by TLC from spec/CryptoDispatch/MemDispatch.tla (MemGroups/MemGroupConfigs); vectors 0-5 rotate {0,1,15,16,17,64} over the arguments, 6-11 put the same value behind every argument, 12-17 (thorough) counter-rotate, so every argument sees every value; each configuration performed once on the real package with all arguments cut out of one canary arena; TLC judges written subset of MayWrite and nothing outside. non-trivial = at least one argument has spare capacity > 0; distinct by the configuration tuple")
+	e.Set("rule", "configuration = (exported function taking []byte, algorithm / input kind, message length around block boundaries, path: ok or the failure steered into, spare-capacity vector), enumerated by TLC from spec/CryptoDispatch/MemDispatch.tla (MemGroups/MemGroupConfigs); vectors 0-5 rotate {0,1,15,16,17,64} over the arguments, 6-11 put the same value behind every argument, 12-17 (thorough) counter-rotate, so every argument sees every value; results-stay-the-caller's configurations (keep, chain, conc): conc goroutines each make keep successful calls, retain every returned slice with a snapshot, then make an ok / failing / chained call (the previous result IS the named argument) and re-check everything retained after every call; each configuration performed once on the real package with all arguments cut out of one canary arena; TLC judges written subset of MayWrite and nothing outside. non-trivial = at least one argument has spare capacity > 0; distinct by the configuration tuple")
 	for _, i := range []int{0, len(cfs) / 7, 2 * len(cfs) / 7, 3 * len(cfs) / 7, 4 * len(cfs) / 7, 5 * len(cfs) / 7, len(cfs) - 1} {
 		e.Sample(tv.M{"config": cfs[i], "observation": res[i]})
 	}
@@ -729,7 +935,7 @@ func TestCheck(t *testing.T) {
 		e.Inconclusive(s)
 	}
 	rejected := map[string]string{}
-	for i := 0; i < 2; i++ {
+	for i := 0; i < 3; i++ {
 		d := <-defCh
 		rejected[d[0]] = d[1]
 		if d[1] != "rejected" {
@@ -813,6 +1019,17 @@ func selfTest(e *ev.Evidence, cfs []Config, seed int64) string {
 	bad := enc
 	bad.Len = 4242
 	b.Start(line(bad, oe)) // 6 not in the configuration space
+	if ret, ok := pick(func(c Config) bool {
+		return c.Fn == "DecryptSymmetric" && c.Alg == "A256GCM" && c.Keep == 1 && c.Chain == "key" && c.Conc == 1
+	}); ok {
+		or := perform(ret, seed)
+		b.Start(line(ret, or)) // 7 as observed
+		w = or
+		w.Written = [][]string{{"result", "len"}}
+		b.Start(line(ret, w)) // 8 an earlier result changed
+	} else {
+		return "binding self-test: retention probe missing"
+	}
 	rej, res := tv.Validate(tlc.Opts{Dir: "CryptoDispatch", Module: "TraceMem", Config: "Trace_small.cfg", Workers: 2, Timeout: 3 * time.Minute}, b)
 	got := map[int]string{}
 	for _, r := range rej {
@@ -820,9 +1037,10 @@ func selfTest(e *ev.Evidence, cfs []Config, seed int64) string {
 	}
 	clean := len(oe.Written) == 0 && !oe.Outside
 	ok := (res.OK || res.Violation) && (!clean || got[0] == "") && got[1] == "plaintext.spare" && got[2] == "outside" &&
-		got[4] == "" && got[5] == "dst.len" && strings.HasPrefix(got[6], "harness: configuration outside")
+		got[4] == "" && got[5] == "dst.len" && strings.HasPrefix(got[6], "harness: configuration outside") && got[8] == "result.len"
 	e.Set("binding_selftest", tv.M{"observed_clean_call_accepted": got[0] == "", "claimed_argument_write": got[1], "claimed_outside_write": got[2],
-		"aead_destination_capacity_write_accepted": got[4] == "", "aead_destination_in_length_write": got[5], "configuration_outside_space": got[6]})
+		"aead_destination_capacity_write_accepted": got[4] == "", "aead_destination_in_length_write": got[5], "configuration_outside_space": got[6],
+		"retention_run_as_observed": got[7], "claimed_earlier_result_write": got[8]})
 	if !ok {
 		return fmt.Sprintf("binding self-test failed: %v %s", got, res.What)
 	}
